@@ -123,12 +123,40 @@ impl<'a, N: Normalizer> XmlSerializer<'a, N> {
                     declarations.push((self.xot.empty_prefix(), self.xot.no_namespace()));
                     self.undeclared.push(node);
                 }
-                self.fullname_serializer.push(declarations);
-                let fullname = self.fullname_serializer.element_fullname(element.name_id)?;
+                let has_own_default = declarations
+                    .iter()
+                    .any(|(prefix_id, _)| *prefix_id == self.xot.empty_prefix());
+                self.fullname_serializer.push(declarations.clone());
+                let mut redeclare = None;
+                let fullname = match self.fullname_serializer.element_fullname(element.name_id) {
+                    Ok(fullname) => fullname,
+                    Err(e) => {
+                        // the default namespace this name relies on may have been
+                        // undeclared on an ancestor (see above): declare it again
+                        let namespace_id = self.xot.namespace_for_name(element.name_id);
+                        if !has_own_default
+                            && self.xot.namespace_for_prefix(node, self.xot.empty_prefix())
+                                == Some(namespace_id)
+                        {
+                            self.fullname_serializer.pop(!declarations.is_empty());
+                            declarations.push((self.xot.empty_prefix(), namespace_id));
+                            self.fullname_serializer.push(declarations);
+                            self.undeclared.push(node);
+                            redeclare = Some(namespace_id);
+                            self.fullname_serializer.element_fullname(element.name_id)?
+                        } else {
+                            return Err(e);
+                        }
+                    }
+                };
                 OutputToken {
                     space: false,
                     text: if undeclare {
                         format!("<{} xmlns=\"\"", fullname)
+                    } else if let Some(namespace_id) = redeclare {
+                        let namespace = self.xot.namespace_str(namespace_id);
+                        let namespace = serialize_attribute(namespace.into(), &self.normalizer);
+                        format!("<{} xmlns=\"{}\"", fullname, namespace)
                     } else {
                         format!("<{}", fullname)
                     },
